@@ -326,6 +326,10 @@ package btree
 //@   assert entry: forall x like iterator.tree.Root :: x.tr == iterator.tree && x.Parent != nil && x.ci == 0 ==> x.lo == x.Parent.lo
 //@   assert entry: forall x like iterator.tree.Root :: x.tr == iterator.tree && x.Parent != nil && x.ci == len(x.Parent.Entries) ==> x.hi == x.Parent.hi
 //@   assert entry: forall x like iterator.tree.Root :: x.tr == iterator.tree && x.Parent != nil ==> x.Parent.lo <= x.lo && x.hi <= x.Parent.hi && x.hi - x.lo < x.Parent.hi - x.Parent.lo
+//@   -- the parent's entries left of a child lie before the child's interval, the others behind it; keys compare as their positions do
+//@   assert entry: forall x like iterator.tree.Root, j :: x.tr == iterator.tree && x.Parent != nil && 0 <= j && j < x.ci ==> x.Parent.ep[j] < x.lo
+//@   assert entry: forall x like iterator.tree.Root, j :: x.tr == iterator.tree && x.Parent != nil && x.ci <= j && j < len(x.Parent.Entries) ==> x.Parent.ep[j] > x.hi
+//@   assert entry: forall p, q :: 0 <= p && p < q && q < iterator.tree.size ==> iterator.tree.Comparator(KeyAt(iterator.tree, q), KeyAt(iterator.tree, p)) > 0
 //@   assert entry: forall x like iterator.tree.Root, i :: x.tr == iterator.tree && 0 <= i && i < len(x.Entries) ==> KeyAt(iterator.tree, x.ep[i]) == x.Entries[i].Key
 //@   assert entry: iterator.position == 1 ==> iterator.tree.Comparator(iterator.entry.Key, iterator.entry.Key) == 0
 //@   assert entry: forall x like iterator.tree.Root, i, j :: x.tr == iterator.tree && 0 <= i && i < j && j < len(x.Entries) ==> iterator.tree.Comparator(x.Entries[i].Key, x.Entries[j].Key) < 0
@@ -334,6 +338,10 @@ package btree
 //@   assert after Tree.search#1: iterator.node.ep[callresult0] == old(Cur(iterator))
 //@   assert after Tree.search#1: callresult0 == iterator.tree.ix[old(Cur(iterator))]
 //@   -- climbing: the parent's insertion index for the key is the index of the child we came from
+//@   assert after Tree.search#2: iterator.entry.Key == KeyAt(iterator.tree, old(Cur(iterator))) && iterator.node.tr == iterator.tree
+//@   assert after Tree.search#2: forall j :: 0 <= j && j < len(iterator.node.Entries) ==> iterator.node.ep[j] != old(Cur(iterator))
+//@   assert after Tree.search#2: forall j :: 0 <= j && j < len(iterator.node.Entries) && iterator.node.ep[j] < old(Cur(iterator)) ==> iterator.tree.Comparator(iterator.entry.Key, iterator.node.Entries[j].Key) > 0
+//@   assert after Tree.search#2: forall j :: 0 <= j && j < len(iterator.node.Entries) && iterator.node.ep[j] > old(Cur(iterator)) ==> iterator.tree.Comparator(iterator.entry.Key, iterator.node.Entries[j].Key) < 0
 //@   assert after Tree.search#2: !callresult1
 //@   assert after Tree.search#2: callresult0 < len(iterator.node.Entries) ==> iterator.node.ep[callresult0] == old(Cur(iterator)) + 1
 //@   assert after Tree.search#2: callresult0 >= len(iterator.node.Entries) ==> iterator.node.hi == old(Cur(iterator))
@@ -361,6 +369,10 @@ package btree
 //@   assert entry: forall x like iterator.tree.Root :: x.tr == iterator.tree && x.Parent != nil && x.ci == 0 ==> x.lo == x.Parent.lo
 //@   assert entry: forall x like iterator.tree.Root :: x.tr == iterator.tree && x.Parent != nil && x.ci == len(x.Parent.Entries) ==> x.hi == x.Parent.hi
 //@   assert entry: forall x like iterator.tree.Root :: x.tr == iterator.tree && x.Parent != nil ==> x.Parent.lo <= x.lo && x.hi <= x.Parent.hi && x.hi - x.lo < x.Parent.hi - x.Parent.lo
+//@   -- the parent's entries left of a child lie before the child's interval, the others behind it; keys compare as their positions do
+//@   assert entry: forall x like iterator.tree.Root, j :: x.tr == iterator.tree && x.Parent != nil && 0 <= j && j < x.ci ==> x.Parent.ep[j] < x.lo
+//@   assert entry: forall x like iterator.tree.Root, j :: x.tr == iterator.tree && x.Parent != nil && x.ci <= j && j < len(x.Parent.Entries) ==> x.Parent.ep[j] > x.hi
+//@   assert entry: forall p, q :: 0 <= p && p < q && q < iterator.tree.size ==> iterator.tree.Comparator(KeyAt(iterator.tree, q), KeyAt(iterator.tree, p)) > 0
 //@   assert entry: forall x like iterator.tree.Root, i :: x.tr == iterator.tree && 0 <= i && i < len(x.Entries) ==> KeyAt(iterator.tree, x.ep[i]) == x.Entries[i].Key
 //@   assert entry: iterator.position == 1 ==> iterator.tree.Comparator(iterator.entry.Key, iterator.entry.Key) == 0
 //@   assert entry: forall x like iterator.tree.Root, i, j :: x.tr == iterator.tree && 0 <= i && i < j && j < len(x.Entries) ==> iterator.tree.Comparator(x.Entries[i].Key, x.Entries[j].Key) < 0
@@ -368,6 +380,10 @@ package btree
 //@   assert after Tree.search#1: callresult1
 //@   assert after Tree.search#1: iterator.node.ep[callresult0] == old(Cur(iterator))
 //@   assert after Tree.search#1: callresult0 == iterator.tree.ix[old(Cur(iterator))]
+//@   assert after Tree.search#2: iterator.entry.Key == KeyAt(iterator.tree, old(Cur(iterator))) && iterator.node.tr == iterator.tree
+//@   assert after Tree.search#2: forall j :: 0 <= j && j < len(iterator.node.Entries) ==> iterator.node.ep[j] != old(Cur(iterator))
+//@   assert after Tree.search#2: forall j :: 0 <= j && j < len(iterator.node.Entries) && iterator.node.ep[j] < old(Cur(iterator)) ==> iterator.tree.Comparator(iterator.entry.Key, iterator.node.Entries[j].Key) > 0
+//@   assert after Tree.search#2: forall j :: 0 <= j && j < len(iterator.node.Entries) && iterator.node.ep[j] > old(Cur(iterator)) ==> iterator.tree.Comparator(iterator.entry.Key, iterator.node.Entries[j].Key) < 0
 //@   assert after Tree.search#2: !callresult1
 //@   assert after Tree.search#2: callresult0 - 1 >= 0 ==> iterator.node.ep[callresult0 - 1] == old(Cur(iterator)) - 1
 //@   assert after Tree.search#2: callresult0 - 1 < 0 ==> iterator.node.lo == old(Cur(iterator))
